@@ -282,6 +282,8 @@ func runConfig(line string, t []string) string {
 	}
 	defer os.RemoveAll(dir)
 	pem, key := writeCert(dir)
+	mark := len(portLocks)
+	defer releasePortsFrom(mark) // the child process is over when this returns
 	ports := [5]int{freePort(), freePort(), freePort(), freePort(), freePort()}
 	y := yamlFor(u(t[1]), t[2], t[3], pem, key, ports, opt)
 	f := filepath.Join(dir, "chfcfg.yaml")
